@@ -37,4 +37,6 @@ Deliverables, written to {out}/ (create the directory):
 - demo/ : the demonstration file(s) with a note of which package directory they belong in, and the exact command to run them
 - meta.json : {{"property": "{pid}", "summary": "<what the change does>", "needs": "<what is needed for it to manifest>", "ran": "<commands you ran and their outcome with and without the change>"}}
 
+While reading the code you may notice that the UNCHANGED tree itself already breaks the property on some input (independently of your change). If so, say so at the end of your reply under the heading "Unchanged tree" with the exact program / input / call sequence and what you observed - confirmed by running it, not guessed. This is as valuable as the seeded change.
+
 When done, reply with a short summary (what you changed, what it needs to manifest, and confirmation that tests pass and the demo fails/passes as required). Do not remove the worktree; leave it in place.""")
